@@ -70,9 +70,9 @@ Proof. vm_compute. auto. Qed.
 
 (* the full statement, through list(parse_string(src)): printing any well-formed program with ANY
    source layout -- gaps made of whitespace, %-comments (any text, including quotes, braces and
-   command names, up to a line end) and line ends LF / CRLF / VT / FF / FS / GS / RS / NEL / LS / PS --
+   command names, up to a line end) and line ends LF / CRLF / CR / VT / FF / FS / GS / RS / NEL / LS / PS --
    and parsing it back is the identity.  (src_programb: names contain no percent sign, string
-   literals no line end.  A bare CR line end is covered by the correspondence run only.) *)
+   literals no line end; a bare CR is not directly followed by an LF item, which would make it a CRLF.) *)
 Theorem bst_roundtrip : forall p gs,
   wf_programb p = true -> src_programb p = true -> slayout_okb None gs (flat_program p) = true ->
   parse_string (print_bst (map sgap_text gs) p) = Ok p.
@@ -82,7 +82,7 @@ Print Assumptions bst_roundtrip.
 Definition example_slayout : list sgap :=
   [ [GCom (s2l " header ""quoted"" { ENTRY") (BrChar 10)]; []; [GWs 32]; [GBrk BrCRLF; GWs 9]; [];
     [GCom (s2l "}") BrCRLF; GBrk (BrChar 10)]; []; []; []; [GWs 160]; []; [GWs 32]; []; [];
-    [GBrk (BrChar 12)]; [GWs 32; GCom [] (BrChar 8232)]; []; [GBrk (BrChar 10)]; [GWs 32; GWs 32] ]%N.
+    [GBrk (BrChar 12)]; [GWs 32; GCom [] (BrChar 8232)]; []; [GBrk BrCR; GCom (s2l "x") BrCR; GWs 32; GBrk (BrChar 10)]; [GWs 32; GBrk BrCR] ]%N.
 Example source_roundtrip_example :
   wf_programb example_program = true /\ src_programb example_program = true /\
   slayout_okb None example_slayout (flat_program example_program) = true /\
@@ -126,6 +126,20 @@ Theorem error_names_line : forall src c l,
   exists pre post, text_of_string src = pre ++ post /\ l = (1 + lf pre)%Z /\ error_site c pre post.
 Proof. exact Proofs.BstErrors.error_names_line. Qed.
 Print Assumptions error_names_line.
+
+(* the same with a hypothesis on the source itself: every source line has an even number of
+   double quotes before its comment (no string literal left open at a line end) *)
+Theorem error_names_line_src : forall src c l,
+  balanced_quotes src -> parse_string src = PyErr c l ->
+  (1 <= l <= Z.of_nat (Nat.max 1 (length (splitlines src))))%Z /\
+  exists pre post, text_of_string src = pre ++ post /\ l = (1 + lf pre)%Z /\ error_site c pre post.
+Proof. exact Proofs.BstSource.error_names_line_src. Qed.
+Print Assumptions error_names_line_src.
+
+Example balanced_quotes_example : balanced_quotes (s2l "ENTRY {a}
+  {b} % "" {
+  { #x }").
+Proof. unfold balanced_quotes. vm_compute. repeat constructor. Qed.
 
 Example error_line_examples :
   ssl false (text_of_string (s2l "ENTRY {a}
